@@ -511,3 +511,56 @@ slice_1d__slice.loops["for#2"] = Loop(invariant=_inv_neg, ghosts={"M": "int"}, g
                                       ghost_update=_upd_neg, hints=_hints_neg)
 slice_1d__slice.loops["for#3"] = Loop(invariant=_inv_final)
 slice_1d__slice._contract.loops = slice_1d__slice.loops
+
+
+# ---- unknown (NaN) axis lengths: indices are left untouched, never "normalised" against a guess (C28) ----
+@contract(f"{UTILS}::normalize_slice", spec="nan", props=["C28"])
+class normalize_slice__nan:
+    params = {"idx": "slice", "dim": "nan"}
+    result = "slice"
+
+    def requires(idx, dim):
+        return True
+
+    def ensures(result, idx, dim):
+        return {"untouched": S.slice_eq(result, idx)}
+
+    def domain(tier, rng):
+        import math
+        for s in small_slices(tier):
+            yield {"idx": s, "dim": math.nan}
+
+
+@contract(f"{UTILS}::posify_index", spec="nan", props=["C28"])
+class posify_index__nan:
+    params = {"shape": "nan", "ind": "int"}
+    result = "int"
+
+    def requires(shape, ind):
+        return True
+
+    def ensures(result, shape, ind):
+        return {"untouched": result == ind}
+
+    def domain(tier, rng):
+        import math
+        for i in range(-5, 6):
+            yield {"shape": math.nan, "ind": i}
+
+
+@contract(f"{UTILS}::check_index", spec="nan", props=["C28"])
+class check_index__nan:
+    """an unknown axis length cannot be bounds-checked: no exception, nothing assumed"""
+    params = {"axis": "int", "ind": "int", "dimension": "nan"}
+    result = "none"
+
+    def requires(axis, ind, dimension):
+        return True
+
+    def ensures(result, axis, ind, dimension):
+        return {"returns": True}
+
+    def domain(tier, rng):
+        import math
+        for i in range(-5, 6):
+            yield {"axis": 0, "ind": i, "dimension": math.nan}
